@@ -8,7 +8,7 @@ TECH="deterministic simulation with fault injection: seeded search over schedule
 claimed = {
  "C03": dict(level="exploration", ref="§5 C03",
    text="Seeded search over interleavings of attach / stop / stream-end (Close, Unregist, UnregistAll, replacement, idle-close job) and the delivery and conversion goroutines of the real media package; oracle at quiescence: every attached consumer of an ended stream (or a stopped one) was closed, count 0 and never negative, no delivery/conversion goroutine left. Evidence, not proof: a clean batch samples the schedule space.",
-   note="Trusted: Go runtime + testing/synctest fake clock, the token scheduler (harness/sim), the placement of schedule points (code between two points is atomic for the search), the simsched stand-in for the cnotch/scheduler engine. Consumer transports are recording stubs in the media family; the service family runs the real RTSP/TCP, RTSP/UDP, ws-rtsp, WSP, HTTP-FLV and WebSocket-FLV consumers against six end causes (one known finding: replacement keeps consumers, known_findings.json)."),
+   note="Trusted: Go runtime + testing/synctest fake clock, the token scheduler (harness/sim), the placement of schedule points (code between two points is atomic for the search), the simsched stand-in for the cnotch/scheduler engine. Consumer transports are recording stubs in the media family; the service family runs the real RTSP/TCP, RTSP/UDP, ws-rtsp, WSP, HTTP-FLV and WebSocket-FLV consumers against six end causes (one known finding: replacement keeps consumers, known_findings.json). The simulator changes of the third session (stalls outside the service family, SetReadDeadline as a schedule point, spin breaker) are described in DESIGN.md 12.8."),
 }
 claimed.update({
  "C01": dict(level="exploration", ref="§5 C01",
@@ -37,10 +37,10 @@ claimed.update({
 claimed.update({
  "C12": dict(level="exploration", ref="§5 C12",
    text="Scripts of up to 10 requests over the property's method alphabet (valid and invalid transports, paths, SDP bodies) on a simulated RTSP/TCP connection to the real session code, delivered in chunks, optionally pipelined or cut by a disconnect at an arbitrary byte, while a publisher feeds the stream; oracle = reference automaton (must-2xx / must-455 / must-not-2xx per state and method) plus per-request rules: one response each with echoed CSeq and constant session id, no frame before a successful PLAY, no stream registered before a successful RECORD, everything released after TEARDOWN or disconnect.",
-   note="Trusted: sim.Conn TCP model, the reference automaton in scen/c12.go (only outcomes fixed by the statement are demanded), the harness publisher. Families ws-rtsp and wsp run the same scripts over one WebSocket / over the WSP control+data channels (disconnect = close between requests; WSP is play-only: ANNOUNCE refused, RECORD 455)."),
+   note="Trusted: sim.Conn TCP model, the reference automaton in scen/c12.go (only outcomes fixed by the statement are demanded), the harness publisher. Families ws-rtsp and wsp run the same scripts over one WebSocket / over the WSP control+data channels (disconnect = close between requests; WSP is play-only: ANNOUNCE refused, RECORD 455). A third of the scripts start with a legal chain that has a refused request of the same kind in the middle."),
  "C13": dict(level="exploration", ref="§5 C13",
    text="A playing RTSP/TCP session (video+audio interleaved) with 20-80 packets of 13..65000 bytes and fake-clock gaps, while the client fires OPTIONS/PLAY/GET_PARAMETER at tape-chosen moments; every server-side connection write, the point between frame prefix and payload, and every contended lock acquisition is a schedule point; an independent reader parses the whole server output: complete responses and complete frames only, frames equal published packets contiguously per channel, one response per request.",
-   note="Trusted: sim.Conn, token scheduler, BeforeLock modelling of the per-session write mutex (reach probe lock.contended must be >0). The websocket family checks the message rule on ws-rtsp and on the WSP control/data channels (gorilla client on the other end)."),
+   note="Trusted: sim.Conn, token scheduler, BeforeLock modelling of the per-session write mutex (reach probe lock.contended must be >0). The websocket family checks the message rule on ws-rtsp and on the WSP control/data channels (gorilla client on the other end). The scheduler may let 1-40 ms of simulated time pass while a writer is parked between prefix and body (stalls), so timers of the connection layer fire inside a frame."),
  "C19": dict(level="exploration", ref="§5 C19",
    text="Real listener.Listener with the real RTSP and HTTP matchers over a simulated root listener; 1-3 connections whose first line comes from the method x target x version grammar or is clearly neither, written in tape-chosen segments with fake-clock pauses around the 15 s sniff timeout, read by stub services with 1..8192-byte buffers; oracle: reference classifier from the statement, byte stream identical and complete from the first byte, exactly one service or closed.",
    note="Trusted: sim.Listener/sim.Conn, the reference classifier; first lines the statement leaves undefined (known method name followed by other letters; first bytes incomplete at the timeout) are not judged for routing, only for byte integrity. Clearing a read deadline on the simulated connection is a schedule point, so the service can read before the listener has finished handing the connection over."),
@@ -48,7 +48,7 @@ claimed.update({
 claimed.update({
  "C06": dict(level="exploration", ref="§5 C06",
    text="Access units packetised by an independent RFC 6184/7798/3640 packetiser (tape-chosen aggregation, fragment sizes, sequence numbers across the 16-bit wrap) sent through a faulty datagram link (loss, burst loss, duplication, adjacent swap, displacement up to 3; fault-free runs separate) into the real rtp.Demuxer; oracle: equality with a reference depacketiser run over the arrival sequence (bytes, order, nothing invented, incomplete fragmented units yield nothing), one PTS per RTP timestamp, PTS differences proportional to timestamp differences.",
-   note="Trusted: the reference packetiser/depacketiser in harness/oracle (written from the RFCs), SDP fixtures with parameter sets. RTP timestamps start just below 2^32 in a quarter of the runs (the wrap falls inside the stream), sender reports precede the media in half of them. Not generated: NAL units shorter than 3 bytes, filler NALs, a first sender report arriving mid-stream (it re-bases the clock)."),
+   note="Trusted: the reference packetiser/depacketiser in harness/oracle (written from the RFCs), SDP fixtures with parameter sets. RTP timestamps start just below 2^32 in a quarter of the runs (the wrap falls inside the stream), sender reports precede the media in half of them. Not generated: NAL units shorter than 3 bytes, filler NALs, a first sender report arriving mid-stream (it re-bases the clock). One run in 30 sends a unit in well over a thousand fragments; a track may get its first sender report mid-stream between access units (presentation times judged per stretch)."),
 })
 claimed.update({
  "C08": dict(level="exploration", ref="§5 C08",
@@ -58,10 +58,10 @@ claimed.update({
 claimed.update({
  "C07": dict(level="fault_enumeration", ref="§5 C07",
    text="A real publisher session (ANNOUNCE/SETUP/RECORD over a simulated connection) pushes a clean GOP, then 1-3 malformed interleaved frames drawn from fault kind x template x offset (truncation at an offset, byte corruption in the first 24 bytes, header-only / shorter-than-header packets, lying sizes in aggregation and AU-header sections, RTCP garbage, unknown channel, random bytes) or a hostile SDP at ANNOUNCE, then four clean GOPs; an RTP consumer, a real HTTP-FLV viewer and the HLS playlist/segments of the same stream plus a second stream and a second session are observed. Oracle = bounded liveness after faults stop: session and stream survive, every later packet is relayed, every later NAL/AAC frame reaches FLV, HLS carries later frames, the others are untouched.",
-   note="Family camera-garbage runs the same faults with a pulled camera as the source (route -> PullClient handshake with a fake camera whose DESCRIBE answer carries the clean, sprop-free or hostile SDP; the pull connection must survive malformed frames and the path must be pullable afresh after a hostile SDP). Trusted: sim.Conn, the FLV/TS/m3u8 oracles. The interleaved framing itself stays intact (a corrupted length field cannot be resynchronised by any receiver). Offsets are sampled per run in the quick tier. One known finding (HLS stalls after an RTP timestamp discontinuity) is listed in known_findings.json."),
+   note="Family camera-garbage runs the same faults with a pulled camera as the source (route -> PullClient handshake with a fake camera whose DESCRIBE answer carries the clean, sprop-free or hostile SDP; the pull connection must survive malformed frames and the path must be pullable afresh after a hostile SDP). Trusted: sim.Conn, the FLV/TS/m3u8 oracles. The interleaved framing itself stays intact (a corrupted length field cannot be resynchronised by any receiver). Offsets are sampled per run in the quick tier. One known finding (HLS stalls after an RTP timestamp discontinuity) is listed in known_findings.json. Fault kinds since the third session: RTP header extensions with lying lengths, zero-length interleaved frames, damaged well-formed SDPs, whole GOPs with one packet corrupted or truncated in place, truncation at structural boundaries; H.265 sources (relay and FLV judged, no HLS for H.265 in ipchub)."),
  "C10": dict(level="exploration", ref="§5 C10",
    text="35-60 s of H.264+AAC frames (frame interval 40 ms..1 s, key-frame interval 1..12 s around the 5 s fragment, audio gaps) through the real TS muxer goroutine, segment generator and playlist in memory and disk modes; playlist invariants after every frame (three consecutive complete segments, media sequence, target duration, token, URIs resolve), segments snapshotted when they appear and compared with what 1-3 slow readers get through the real GetTS handler while rollover happens, two playlist fetchers with different tokens through GetM3u8; every segment is demultiplexed by an independent TS reader (PAT/PMT/CRC, continuity, PES, Annex-B, ADTS) and must carry every source frame exactly once, in order, starting with AUD+SPS+PPS+IDR after the first segment.",
-   note="Trusted: the TS/ADTS/m3u8 oracles, sync.Pool made repeatable by GOMAXPROCS=1 and GC off during a run. One known finding (key-frame interval above twice the fragment length: segment cut on an audio frame) is listed in known_findings.json. A second family drives the segment generator directly with fragment lengths 0 and 1 s (fragments below 100 ms, dropped with sequence-number reuse), which the server configuration cannot produce. C09 (pure TS byte format) is not claimed; its reader nevertheless runs on every segment here."),
+   note="Trusted: the TS/ADTS/m3u8 oracles, sync.Pool made repeatable by GOMAXPROCS=1 and GC off during a run. One known finding (key-frame interval above twice the fragment length: segment cut on an audio frame) is listed in known_findings.json. A second family drives the segment generator directly with fragment lengths 0 and 1 s (fragments below 100 ms, dropped with sequence-number reuse), which the server configuration cannot produce. C09 (pure TS byte format) is not claimed; its reader nevertheless runs on every segment here. A listed segment has to resolve only while it is still listed (the window may move between the playlist and the fetch)."),
 })
 claimed.update({
  "C17": dict(level="exploration", ref="§5 C17",
